@@ -165,6 +165,10 @@ func isCallToFn(in ssa.Instruction, fns ...*ssa.Function) bool {
 		return false
 	}
 	f := calleeFn(cc)
+	if f == nil || f.Synthetic != "" {
+		// a method value called through a local
+		f, _ = methodCall(cc)
+	}
 	if f == nil {
 		return false
 	}
@@ -1442,6 +1446,259 @@ func (p *Prog) closeSitesIn(fn *ssa.Function, field *types.Var) []ssa.Instructio
 					}
 				}
 			})
+		}
+	}
+	return out
+}
+
+// methodCall resolves a call to its declared callee and its arguments with the receiver first, also when the callee
+// is spelled as a method value: `f := r.m; f(x)` (a bound-method closure called directly) and the same local captured
+// by a closure (`go func() { f(x) }()`: a cell of the parent with a single store of the method value).
+func methodCall(cc *ssa.CallCommon) (*ssa.Function, []ssa.Value) {
+	if cc == nil || cc.IsInvoke() {
+		return nil, nil
+	}
+	bound := func(v ssa.Value) (*ssa.Function, ssa.Value) {
+		mc, ok := v.(*ssa.MakeClosure)
+		if !ok || len(mc.Bindings) != 1 {
+			return nil, nil
+		}
+		w, ok := mc.Fn.(*ssa.Function)
+		if !ok || w.Synthetic == "" {
+			return nil, nil
+		}
+		mo, _ := w.Object().(*types.Func)
+		if mo == nil {
+			return nil, nil
+		}
+		if m := w.Prog.FuncValue(mo); m != nil {
+			return m, mc.Bindings[0]
+		}
+		return nil, nil
+	}
+	v := cc.Value
+	if m, recv := bound(v); m != nil {
+		return m, append([]ssa.Value{recv}, cc.Args...)
+	}
+	if f := cc.StaticCallee(); f != nil {
+		return f, cc.Args
+	}
+	// a local function variable that lives in a cell
+	if u, ok := v.(*ssa.UnOp); ok && u.Op == token.MUL {
+		if cell, ok := cellKey(u).(*ssa.Alloc); ok {
+			var st *ssa.Store
+			n := 0
+			for _, r := range *cell.Referrers() {
+				if s, ok := r.(*ssa.Store); ok && s.Addr == ssa.Value(cell) {
+					st = s
+					n++
+				}
+			}
+			if n == 1 {
+				if m, recv := bound(st.Val); m != nil {
+					return m, append([]ssa.Value{recv}, cc.Args...)
+				}
+				if f, ok := st.Val.(*ssa.Function); ok {
+					return f, cc.Args
+				}
+			}
+		}
+	}
+	return nil, nil
+}
+
+// callersSeeThrough is callersOf with the edges out of bound-method wrappers and thunks (`r.m` / `T.m` used as a
+// value) replaced by the call sites that call the wrapper: the site that really runs fn. The arguments of such a site
+// do not include the receiver.
+func (p *Prog) callersSeeThrough(fn *ssa.Function) []*callgraph.Edge {
+	var out []*callgraph.Edge
+	for _, e := range p.callersOf(fn) {
+		cf := e.Caller.Func
+		if cf.Synthetic != "" && cf.Pkg == nil && (strings.HasSuffix(cf.Name(), "$bound") || strings.HasSuffix(cf.Name(), "$thunk")) {
+			if inner := p.callersOf(cf); len(inner) > 0 {
+				out = append(out, inner...)
+				continue
+			}
+		}
+		out = append(out, e)
+	}
+	return out
+}
+
+// declaredFn maps a bound-method wrapper or thunk to the method it wraps; other functions map to themselves.
+func declaredFn(f *ssa.Function) *ssa.Function {
+	if f == nil || f.Synthetic == "" {
+		return f
+	}
+	if mo, _ := f.Object().(*types.Func); mo != nil {
+		if m := f.Prog.FuncValue(mo); m != nil {
+			return m
+		}
+	}
+	return f
+}
+
+// paramFuncTargets: the declared functions that the callers of fn pass for its function-typed parameter prm; nil when
+// a caller passes something that is not a function constant or method value.
+func (p *Prog) paramFuncTargets(fn *ssa.Function, prm *ssa.Parameter) []*ssa.Function {
+	idx := paramIndex(fn, prm)
+	if idx < 0 {
+		return nil
+	}
+	var out []*ssa.Function
+	for _, e := range p.callersOf(fn) {
+		args := e.Site.Common().Args
+		if e.Site.Common().StaticCallee() != fn || idx >= len(args) {
+			return nil
+		}
+		g := declaredFn(funcValue(args[idx]))
+		if g == nil {
+			return nil
+		}
+		out = append(out, g)
+	}
+	return out
+}
+
+// condAtom: a comparison and the truth value it is known to have.
+type condAtom struct {
+	cmp   *ssa.BinOp
+	truth bool
+}
+
+// impliedAtoms: the comparisons whose value follows from cond == truth. Negations are unfolded, and so are the boolean
+// phis of short-circuit operators: `a && b` is true only on the edge that evaluated b (so a and b hold), `a || b` is
+// false only on the edge that evaluated b (so neither holds).
+func impliedAtoms(cond ssa.Value, truth bool, depth int) []condAtom {
+	return impliedAtoms2(cond, truth, depth, true)
+}
+
+// impliedAtoms2 with withPath=false leaves out what was decided on the way to a short-circuit operand: only the
+// comparisons of the condition itself.
+func impliedAtoms2(cond ssa.Value, truth bool, depth int, withPath bool) []condAtom {
+	if depth > 6 {
+		return nil
+	}
+	switch x := cond.(type) {
+	case *ssa.UnOp:
+		if x.Op == token.NOT {
+			return impliedAtoms2(x.X, !truth, depth+1, withPath)
+		}
+	case *ssa.BinOp:
+		switch x.Op {
+		case token.LSS, token.LEQ, token.GTR, token.GEQ, token.EQL, token.NEQ:
+			return []condAtom{{x, truth}}
+		}
+	case *ssa.Phi:
+		// edges that can produce `truth`
+		var live []int
+		for i, e := range x.Edges {
+			if cv, ok := e.(*ssa.Const); ok && cv.Value != nil && cv.Value.Kind() == constant.Bool {
+				if constant.BoolVal(cv.Value) != truth {
+					continue
+				}
+			}
+			live = append(live, i)
+		}
+		if len(live) != 1 {
+			return nil
+		}
+		i := live[0]
+		out := impliedAtoms2(x.Edges[i], truth, depth+1, withPath)
+		if !withPath {
+			// the operand was evaluated because the earlier operands had the value that does not decide
+			pred := x.Block().Preds[i]
+			for _, d := range x.Block().Parent().Blocks {
+				if len(d.Instrs) == 0 {
+					continue
+				}
+				if iff, ok := d.Instrs[len(d.Instrs)-1].(*ssa.If); ok && d.Succs[0] != d.Succs[1] {
+					for k := 0; k < 2; k++ {
+						if d.Succs[k] == pred && len(pred.Preds) == 1 {
+							out = append(out, impliedAtoms2(iff.Cond, k == 0, depth+1, false)...)
+						}
+					}
+				}
+			}
+			return out
+		}
+		return append(out, atomsAt(x.Block().Preds[i], depth+1)...)
+	}
+	return nil
+}
+
+// atomsAt: the comparisons decided on every path to block b - by the branches of its dominators whose taken edge
+// leads only to b's region.
+func atomsAt(b *ssa.BasicBlock, depth int) []condAtom {
+	if depth > 6 {
+		return nil
+	}
+	var out []condAtom
+	for _, d := range b.Parent().Blocks {
+		if len(d.Instrs) == 0 || !d.Dominates(b) {
+			continue
+		}
+		iff, ok := d.Instrs[len(d.Instrs)-1].(*ssa.If)
+		if !ok || d.Succs[0] == d.Succs[1] {
+			continue
+		}
+		for k := 0; k < 2; k++ {
+			s := d.Succs[k]
+			if len(s.Preds) == 1 && (s == b || s.Dominates(b)) {
+				out = append(out, impliedAtoms(iff.Cond, k == 0, depth+1)...)
+			}
+		}
+	}
+	return out
+}
+
+// atomImpliesAtLeastOne: the atom compares x with a constant in a way that makes x >= 1.
+func atomImpliesAtLeastOne(a condAtom, isX func(ssa.Value) bool) bool {
+	k, isC := constInt(a.cmp.Y)
+	if !isC || !isX(a.cmp.X) {
+		return false
+	}
+	op := a.cmp.Op
+	if !a.truth {
+		op = negate(op)
+	}
+	switch op {
+	case token.NEQ:
+		return k == 0 // lengths are never negative
+	case token.GTR:
+		return k >= 0
+	case token.GEQ:
+		return k >= 1
+	}
+	return false
+}
+
+// feasiblePhiEdges: the incoming values of phi that can be its value at block `at`: an edge is dropped when the
+// comparisons decided on the way into it contradict the comparisons decided on the way to `at` (the same immutable
+// SSA comparison with the opposite outcome - two branches on one flag).
+func feasiblePhiEdges(phi *ssa.Phi, at *ssa.BasicBlock) []ssa.Value {
+	here := atomsAt(at, 0)
+	var out []ssa.Value
+	for i, e := range phi.Edges {
+		pred := phi.Block().Preds[i]
+		in := atomsAt(pred, 0)
+		if iff, ok := pred.Instrs[len(pred.Instrs)-1].(*ssa.If); ok && pred.Succs[0] != pred.Succs[1] {
+			for k := 0; k < 2; k++ {
+				if pred.Succs[k] == phi.Block() {
+					in = append(in, impliedAtoms(iff.Cond, k == 0, 0)...)
+				}
+			}
+		}
+		contradicts := false
+		for _, a := range in {
+			for _, b := range here {
+				if a.cmp == b.cmp && a.truth != b.truth {
+					contradicts = true
+				}
+			}
+		}
+		if !contradicts {
+			out = append(out, e)
 		}
 	}
 	return out
